@@ -39,6 +39,12 @@ DNext == /\ steps < MaxSteps
          /\ (DInsert \/ DUpdate \/ DDelete)
 DSpec == DInit /\ [][DNext]_<<shardVars, steps>>
 
+\* small universes for the exhaustive configuration
+Fv(c, w) == [c |-> c, ix |-> <<>>, d |-> 0, sz |-> w]
+Del == [c |-> "_delete", ix |-> <<>>, d |-> 1, sz |-> 0]
+MCDocs == { <<>>, [a |-> Fv("1", 0)], [a |-> Fv("2", 0), b |-> Fv("B", 700)] }
+MCUpd  == { [a |-> Fv("3", 0)], [a |-> Del], [c |-> Fv("B", 700)], [b |-> Del, a |-> Fv("1", 0)] }
+
 \* action properties of the design
 OnlyInsertAdds == [][DOMAIN pts' \ DOMAIN pts # {} => count' > count]_<<shardVars, steps>>
 NodeStable == [][\A i \in DOMAIN pts \cap DOMAIN pts' : nodeOf'[i] = nodeOf[i]]_<<shardVars, steps>>
